@@ -14,9 +14,9 @@ import (
 // Engine: eng_pending.go. Scope: functions of the package whose results are (time.Time, error),
 // or (interface{}, ..., error) methods of the datetime type.
 var c31ErrExceptions = map[string]string{
-	"sql/types.parseDatetime/err<-Parse/return time.Time{}, false, nil":   "layout probing: a layout that does not match is not an error of the conversion; that no layout matched is reported by the bool result",
-	"sql/types.parseDatetime/err<-Parse#2/return time.Time{}, false, nil": "layout probing (see the first probe)",
-	"sql/types.ConvertToTime/err<-ConvertWithoutRangeCheck/return ZeroTime, nil": "the zero date short-circuit: the value is MySQL's zero date whatever trailed it; whether the truncation report must survive on this path was not established by a demonstration, so the path is excepted by name and not claimed",
+	"sql/types.parseDatetime/err<-Parse/return time.Time{}, false, nil":          "layout probing: a layout that does not match is not an error of the conversion; that no layout matched is reported by the bool result",
+	"sql/types.parseDatetime/err<-Parse#2/return time.Time{}, false, nil":        "layout probing (see the first probe)",
+	"sql/types.ConvertToTime/err<-ConvertWithoutRangeCheck/return ZeroTime, nil": "infeasible pairing: ConvertWithoutRangeCheck returns ZeroTime only for zero-date inputs, always with a nil error (IsZeroTimestampStr is tested before parsing, and no layout of time.Parse can yield year 0 month 0), so no truncation report can be pending when res equals ZeroTime (probed: a zero date with trailing garbage takes the not-parsed path and still warns)",
 }
 
 func c31TimeResult(typesRel string, recvNames map[string]bool) func(pk *packages.Package, fd *ast.FuncDecl) bool {
